@@ -19,7 +19,7 @@ BUDGET = {"quick": 700, "thorough": 20000}
 SOFT = {"quick": 50.0, "thorough": 900.0}
 REQUIRED = ["map:translate", "map:rotate", "map:scale", "map:mirror", "via:method", "via:transform-list", "origin:none",
             "origin:given", "judged:vertices", "judged:edges", "judged:copy-independent", "judged:arguments-unchanged",
-            "judged:direct-curve", "judged:constructor-arrays", "entity:shape", "entity:operation", "entity:sketch", "entity:stack", "composition:2+"]
+            "judged:direct-curve", "judged:constructor-arrays", "judged:copy-projected-original-unchanged", "entity:shape", "entity:operation", "entity:sketch", "entity:stack", "composition:2+"]
 MIN_KEYS = 80
 RULE = (
     "entity zoo (Point, Face / Loft carrying each edge kind, Box / Extrude / Revolve / Wedge, curves (discrete, linear / spline "
@@ -534,7 +534,7 @@ def compare(ctx, cx, cy, A, scale_total, tol, tag, mkinds, via):
     if len(cx["edges"]) != len(cy["edges"]):
         ctx.violation(f"edge-count:{tag}:{mk}", f"{mkinds} via {via}: {len(cx['edges'])} curved edges before, {len(cy['edges'])} after")
         return False
-    if cx["nproj"] != cy["nproj"]:
+    if cx["nproj"] is not None and cx["nproj"] != cy["nproj"]:
         ctx.violation(f"projected-vertex-count:{tag}:{mk}", f"{cx['nproj']} vs {cy['nproj']}")
         return False
     for ex in cx["edges"]:
@@ -631,13 +631,34 @@ def copy_check(ctx, e, cb, tag, extra):
         return
     if not labels_defined(ctx, cc, tag, "copy"):
         return
+    # the copy is projected (corner / face points): the original must not notice
+    projected = False
+    if hasattr(C, "project_corner"):
+        C.project_corner(0, "geoCopyOnly")
+        C.project_side("top", "geoCopyOnly", points=True)
+        projected = True
+    elif hasattr(C, "project") and hasattr(C, "points"):
+        C.project("geoCopyOnly", points=True)
+        projected = True
+    elif hasattr(C, "operations"):
+        for op in list(C.operations)[:2]:
+            op.project_corner(0, "geoCopyOnly")
+        projected = True
     C.translate([1.0, 2.0, 3.0])
     c1 = content(items(X), cb)
+    if projected:
+        ctx.count("judged:copy-projected-original-unchanged")
+        if c1["nproj"] != c0["nproj"] or "geoCopyOnly" in c1["labels_used"]:
+            ctx.violation(f"copy-shares-projection-state:{tag}",
+                          f"projecting points of the copy changed the original: {c0['nproj']} -> {c1['nproj']} projected vertices")
+            return
     for a, b in zip(c0["verts"], c1["verts"]):
         if not np.array_equal(a, b):
             ctx.violation(f"copy-shares-state:{tag}", f"translating the copy moved the original's vertex {list(a)} -> {list(b)}")
             return
     shift = lambda p: np.array(p) + np.array([1.0, 2.0, 3.0])  # noqa: E731
+    if projected:
+        c0 = dict(c0, nproj=None)
     if extra is not None and extra[0] == "face":
         c2 = content([cb.Loft(C, cb.Face([list(shift(p)) for p in extra[1]]))], cb)
     else:
